@@ -37,6 +37,37 @@ fn hash_family(r: &mut Rng, want: usize) -> Vec<String> {
     best
 }
 
+/// names sharing the first six characters, the extension and a 16-bit hash at the very top of the range (0xFFFF): once
+/// the numeric tails ~1..~9 of that hash are taken the generator has to go on to hash + 1, i.e. wrap around to 0
+fn top_hash_family(r: &mut Rng, want: usize) -> Vec<String> {
+    let stem: String = (0..6).map(|_| (b'a' + r.below(26) as u8) as char).collect();
+    let alphabet: Vec<char> = "abcdefghijklmnopqrstuvwxyz0123456789".chars().collect();
+    let step = |mut c: u16, s: &str| -> u16 {
+        for ch in s.chars() {
+            c = (c >> 1).wrapping_add(c << 15).wrapping_add(ch as u16);
+        }
+        c
+    };
+    let h_pre = step(0, &format!("{} top ", stem));
+    let mut out = vec![];
+    'all: for a in &alphabet {
+        for b in &alphabet {
+            let h_ab = step(h_pre, &format!("{}{}", a, b));
+            for c in &alphabet {
+                for d in &alphabet {
+                    if step(h_ab, &format!("{}{}.dat", c, d)) == 0xFFFF {
+                        out.push(format!("{} top {}{}{}{}.dat", stem, a, b, c, d));
+                        if out.len() >= want {
+                            break 'all;
+                        }
+                    }
+                }
+            }
+        }
+    }
+    out
+}
+
 /// names whose characters 3..6 are the hex digits of their own 16-bit hash: for them the 6-character alias form and
 /// the 2-character+hash form are the same string, so one existing alias collides with both forms at once
 fn self_hash_family(r: &mut Rng, want: usize) -> Vec<String> {
@@ -169,7 +200,17 @@ pub fn run(seed: u64, size: usize) -> RunOutcome {
         fam.extend(pool);
         pool = fam;
     }
+    let top = r.chance(1, 8);
+    if top {
+        // a pool that consists of little else, so that the whole family ends up in one directory
+        let mut fam = top_hash_family(&mut r, 18);
+        fam.extend(pool.into_iter().take(4));
+        pool = fam;
+    }
     for i in 0..size / 4 {
+        if top {
+            break;
+        }
         // short basenames (prefix shorter than 6 / 2), lossy characters, dots and spaces, non-ASCII
         pool.push(match i % 8 {
             0 => format!("a+{}.x", i),
@@ -183,12 +224,15 @@ pub fn run(seed: u64, size: usize) -> RunOutcome {
         });
     }
     for _ in 0..size / 6 {
+        if top {
+            break;
+        }
         pool.push((*r.pick(crate::gen::VALID_NAMES)).to_string());
     }
     let steps = size * 3 + 20;
     let in_subdir = cfg.vol.fat == 32 || r.chance(2, 3);
     let mut dirs: Vec<(u8, Option<&'static str>)> = vec![if in_subdir { (1, Some("pop")) } else { (0, None) }];
-    if r.chance(1, 2) {
+    if !top && r.chance(1, 2) {
         dirs.push((2, Some("pop2")));
     }
     let mut src = PopScript { rng: Rng::new(seed ^ 0xC16), pool, left: steps, dirs, made: 0 };
